@@ -21,6 +21,9 @@ def _run(ctx):
         # one harness run serves all six properties (cached by binary+input)
         res = lib.vh(ctx, "rpkitree", beh, out_name="rpkitree%d" % i, cacheable=True, timeout=3000)
         results.append(res["per_property"][pid])
+    if pid == "C06":
+        import pubpoint
+        results.append(pubpoint.run_module(ctx, "C06"))
     r = lib.merge_results(*results)
     ctx.extra["worlds_exported"] = total
     ctx.assumptions += [
@@ -65,7 +68,8 @@ CHECKS = {
             "level_text": "Same worlds, lower bound: everything the model expects is served; sibling rule checked by TLC and replay."},
     "C06": {"run": _run, "engine": "RpkiTree", "technique": _TECH, "design_ref": "4/C06", "level_note": _NOTE,
             "level_text": "Every CA position x {stale manifest, stale CRL, premature manifest} x stale policies on the fetch path "
-                          "of a fresh cache (the stored-data path is covered by the PubPoint module)."},
+                          "of a fresh cache (RpkiTree), and stored versions that are stale (via manifest or CRL) under both policies on the "
+                          "stored-data path (PubPoint histories)."},
     "C07": {"run": _run, "engine": "RpkiTree", "technique": _TECH, "design_ref": "4/C07", "level_note": _NOTE,
             "level_text": "TLC proves termination (<>Done under weak fairness) and depth/loop exclusion for all worlds; the replay runs "
                           "deep chains and key loops through the real engine with 1/2/4 threads under a watchdog."},
